@@ -34,7 +34,7 @@ Definition ctl_step (st : state) (oo : op * outcome) : state :=
   match oo with
   | (OpenW w m chans auths, OOk _) =>
       match chan_auths chans auths with
-      | Some ca => State (st_unowned st) (st_chans st) (st_cap st) (st_writers st ++ [(w, Writer true m ca (st_npos st) 0)])
+      | Some ca => State (st_unowned st) (st_deadinlet st) (st_chans st) (st_cap st) (st_writers st ++ [(w, Writer true m ca (st_npos st) 0)])
                          (st_npos st + 1) [] [] false []
       | None => st
       end
